@@ -203,6 +203,26 @@ def hello_ops(msg, rng, is_client):
             else:
                 hh.exts = [(0, ed)] + ex
             out("sni:" + nm, hh)
+        # the list structure itself: no host_name entry at all, an empty
+        # list, two host names, a host name beside an entry of unknown type
+        def ent(t, b):
+            return bytes([t]) + wire.p16(len(b)) + b
+        for nm, lst in (("only_unknown_type", ent(1, b"WWW.Example.COM")),
+                        ("empty_list", b""),
+                        ("two_host_names", ent(0, b"a.example") +
+                         ent(0, b"b.example")),
+                        ("host_and_unknown", ent(0, b"a.example") +
+                         ent(7, b"xyz")),
+                        ("unknown_then_host", ent(7, b"xyz") +
+                         ent(0, b"a.example")),
+                        ("empty_host_name", ent(0, b""))):
+            ed = wire.p16(len(lst)) + lst
+            hh = copy.copy(h)
+            if any(et == 0 for et, _ in ex):
+                hh.exts = [(et, ed if et == 0 else d) for et, d in ex]
+            else:
+                hh.exts = [(0, ed)] + ex
+            out("snilist:" + nm, hh)
     if is_client and ex and ex[-1][0] == 41:
         # pre_shared_key: well-framed variants of the offer itself
         try:
